@@ -137,6 +137,37 @@ def narrowing_templates():
     return T
 
 
+def assignment_templates():
+    """a store whose value lies outside the cell's content type: plain `=` and every compound `op=` whose result type is
+    wider than (or unrelated to) the content type - through the declared and the inferred `mut`, a parameter and a
+    captured cell; each is read back afterwards"""
+    T = []
+    F = lambda x: ("f", x)
+    cases = [
+        (arr(INT), ("array", [I(1)]), ("array", [F(2.5)]), ("add", "set")),
+        (arr(INT), ("array", []), ("array", [("s", "x")]), ("add", "set")),
+        (arr(arr(INT)), ("array", [("array", [I(1)])]), ("array", [("array", [F(2.5)])]), ("add", "set")),
+        (arr(multi(INT, FLOAT)), ("array", [I(1), F(0.5)]), ("array", [("s", "x")]), ("add", "set")),
+        (INT, I(1), F(2.5), ("set", "add", "sub", "mul", "div", "pow")),
+        (FLOAT, F(1.5), I(2), ("set", "add", "sub", "mul", "div", "pow")),
+        (STR, ("s", "a"), I(1), ("set", "add")),
+        (STR, ("s", "a"), ("array", [("s", "b")]), ("set", "add")),
+        (INT, I(1), ("s", "x"), ("set", "add", "mul")),
+        (INT, I(6), ("true",), ("set", "band", "bor", "bxor")),
+        (BOOL, ("true",), I(1), ("set", "band", "bor", "bxor")),
+        (multi(INT, STR), I(1), F(2.5), ("set",)),
+    ]
+    for ct, init, rhs, ops in cases:
+        for op in ops:
+            st = ("assign", op, V("m"), rhs)
+            rd = ("pre", "deref", V("m"))
+            T.append([("set", "m", ("mut", ct, init)), st, rd])
+            T.append([("set", "m", ("mut", None, init)), st, rd])
+            T.append([("fndecl", "g", [("m", cell(ct))], ANY, [st, ("return", rd)]), ("call", V("g"), [("mut", ct, init)])])
+            T.append([("set", "m", ("mut", ct, init)), ("fndecl", "g", [], ANY, [st, ("return", rd)]), ("tuple", [("call", V("g"), []), rd])])
+    return T
+
+
 def mutants(rnd, progs, per_prog=2):
     out = []
     for p in progs:
